@@ -106,6 +106,14 @@ NEvals(steps) == Cardinality({i \in 1..Len(steps) : steps[i] = "E"})
 AttrHistClauses(r) ==
   << <<"EvalReadsCurrentAttributes", r.ok /\ r.exc = "" /\ r.nev = 4 * NEvals(r.steps)>> >>
 
+(* "vmprobe" records: the von Mises distribution outside its support [mu - pi, mu + pi] (points *)
+(* left and right of it, incl. 0 and a negative value where they lie outside) and at p = 0 / 1:   *)
+(* cdf exactly 0 / 1 there, pdf exactly 0, icdf(0) = mu - pi and icdf(1) = mu + pi                 *)
+VmProbeClauses(r) ==
+  \* outside one period the documented (circular) density states no behaviour: scipy's periodic continuation of the cdf is
+  \* a convention (DESIGN 10.3a), r.cdfok / r.pdfzero are carried as observations only; the ends of the period are judged
+  << <<"IcdfEndpoints", r.icdfends>> >>
+
 (* coverage *)
 Idx(kind) == {i \in 1..Len(TraceLog) : TraceLog[i].kind = kind}
 IntOverrideSeen == {<<TraceLog[i].fam, TraceLog[i].E, TraceLog[i].method, TraceLog[i].valkind,
@@ -129,6 +137,7 @@ Clauses(r) == CASE r.kind \in {"override", "intoverride"} -> OverrideClauses(r)
                 [] r.kind = "laws" -> LawsClauses(r)
                 [] r.kind = "hist" -> HistClauses(r)
                 [] r.kind = "attrhist" -> AttrHistClauses(r)
+                [] r.kind = "vmprobe" -> VmProbeClauses(r)
                 [] r.kind = "summary" -> SummaryClauses(r)
 
 Verdict(r) == Failing(Clauses(r))
